@@ -52,12 +52,18 @@ theorem C20_terminates [DecidableEq α] (E : Sync.Env α) (w : World α) (p : Pa
 
 /-- **Depth ≤ 2** for a trait whose partners have no partner but itself (one
 link between two traits, mutual or one-way, or a hub with several partners):
-the propagation visits the trait, then each partner once, and stops. -/
-theorem C20_depth_two (w : World α) (p : Pair) (d : Nat)
+the propagation visits the trait, then each partner once, and stops — two
+nested calls are all the recursion ever uses (every budget ≥ 2 gives the result
+of budget 2). -/
+theorem C20_depth_two [DecidableEq α] (E : Sync.Env α) (w : World α) (p : Pair) (d : Nat) (hL : w.locked = [])
     (hnd : (w.partners p).Nodup) (hp : p ∉ w.partners p)
     (hback : ∀ q ∈ w.partners p, ∀ t ∈ w.partners q, t = p) :
-    visit w.edges (d + 2) [] p = p :: w.partners p :=
-  visit_hub w.edges p d hnd hp hback
+    visit w.edges (d + 2) [] p = p :: w.partners p ∧
+    (∀ v, cascade (applyAssign E) (d + 2) w p v = cascade (applyAssign E) 2 w p v) ∧
+    (∀ op, cascade (applyMutate E) (d + 2) w p op = cascade (applyMutate E) 2 w p op) :=
+  ⟨visit_hub w.edges p d hnd hp hback,
+   fun v => cascade_hub_depth (local_assign E) w p v d hL hback,
+   fun op => cascade_hub_depth (local_mutate E) w p op d hL hback⟩
 
 /-! ### Convergence -/
 
